@@ -230,6 +230,18 @@ def lxml_clauses(obs):
     return bad
 
 
+def output_clauses(obs):
+    """all clause evaluators on one output of the implementation.  A changed serializer can emit anything: an exception
+    while inspecting the OUTPUT is a failing input, never a crash of the check."""
+    bad = []
+    for fn in (direct_clauses, lxml_clauses):
+        try:
+            bad += fn(obs)
+        except Exception as e:  # noqa: BLE001
+            bad.append("output is not namespace-well-formed (%s raised %s: %s)" % (fn.__name__, type(e).__name__, str(e)[:80]))
+    return bad
+
+
 def check_cases(ctx, cases):
     observed = []
     for c in cases:
@@ -249,7 +261,10 @@ def check_cases(ctx, cases):
         terms.append("enc_bfs (bfs_of %s)" % t)
         # the property's clauses, evaluated in Coq on the implementation's own table and declarations
         if o["pref"][0] == "ok" and o["ser"][0] == "ok" and not has_xmlns_attr(o["t"]):
-            tags = start_tags(o["ser"][1])
+            try:
+                tags = start_tags(o["ser"][1])
+            except Exception:  # noqa: BLE001
+                tags = []
             decl = [(a, v) for a, v in (tags[0][1] if tags else []) if a == "xmlns" or a.startswith("xmlns:")]
             nss = sorted(set(n for l in o["ord"] for n in l))
             terms.append("enc_bool (c13_holds_b %s %s %s %s)" % (
@@ -299,7 +314,10 @@ def check_cases(ctx, cases):
             continue
         if sk == "ok":
             exp = [0] + [ord(x) for x in sv]
-            tags = start_tags(sv)
+            try:
+                tags = start_tags(sv)
+            except Exception:  # noqa: BLE001
+                tags = []
             decl = [(a, v) for a, v in (tags[0][1] if tags else []) if a == "xmlns" or a.startswith("xmlns:")]
             if v_decl != enc_pairs(decl) and not has_xmlns_attr(o["t"]):
                 ctx.mismatch("declared_attributes vs the root's xmlns attributes", {"case": case, "impl": decl})
@@ -316,7 +334,7 @@ def check_cases(ctx, cases):
                 continue            # empty text node (finding 17, property C02)
             ctx.fail("serialize raised %s: no consistent prefix assignment was produced" % sv, case, classify)
             continue
-        bad = direct_clauses(o) + lxml_clauses(o)
+        bad = output_clauses(o)
         if v_spec != [1]:
             bad.append("the clauses of C13 (c13_holds_b, evaluated in Coq) fail on the implementation's prefix table")
         for b in bad[:1]:
@@ -331,7 +349,7 @@ def check_cases(ctx, cases):
                              dict(case, which=label, index=fo["index"], width=fo["width"]), classify)
                 continue
             ctx.count(1, "formatted/" + label)
-            fbad = direct_clauses(fo) + lxml_clauses(fo)
+            fbad = output_clauses(fo)
             for b in fbad[:1]:
                 ctx.fail("%s serialization: %s" % (label, b), dict(case, output=fo["ser"][1], which=label), classify)
 
@@ -348,7 +366,7 @@ def replay_open(f):
         return False
     if f["cls"] == "attribute-named-xmlns":
         o = observe({"route": "api", "tree": w["tree"], "mapping": w["mapping"]})
-        return o["ser"][0] == "ok" and bool(direct_clauses(o))
+        return o["ser"][0] == "ok" and bool(output_clauses(o))
     o = observe({"route": "parse", "src": w["src"], "mapping": w["mapping"]})
     return o["ser"][0] == "exc" and o["ser"][1] == "AssertionError"
 
@@ -387,7 +405,7 @@ def check_regression_subtree(ctx):
                 ctx.fail("subtree/w%d serialization raised %s" % (width, type(e).__name__), dict(w, width=width), classify)
                 continue
             fo = {"ser": ("ok", text), "m": None, "t": extract(node)}
-            for b in (direct_clauses(fo) + lxml_clauses(fo))[:1]:
+            for b in output_clauses(fo)[:1]:
                 ctx.fail("subtree/w%d serialization: %s" % (width, b), dict(w, width=width, output=text), classify)
 
 
